@@ -348,5 +348,34 @@ def check_C17(ctx):
                         samples=[dict(format=data[0]["job"]["format"], style=data[0]["job"]["style"], entries=[e["path"] for e in data[0]["job"]["entries"]][:8])] if data else [])
 
 
-REGISTRY = {"C17": check_C17, "C16": check_C16, "C14": check_C14, "C07": check_C07, "C06": check_C06, "C10": check_C10, "C15": check_C15, "C01": check_C01, "C02": check_C02, "C04": check_C04, "C05": check_C05,
+SYM_TRUST = ["primitive laws (wrap/unwrap, lock/unlock, sign/verify, enc/dec) are hypotheses of the theorems, visible in their statements; the real libraries (age, go-crypto/openpgp, gopenpgp, minisign) are tested against them by the sweep, not verified",
+             "the symbolic glue model (Model/SymKeys.v) is tied to the source by the KeyGlue monitor over the regenerated skeleton"]
+
+
+def check_C18(ctx):
+    import crypto, collections
+    ctx.trusted += M2_TRUST + SYM_TRUST
+    coq_props(ctx, "C18", ["C18_age", "C18_pgp", "C18_minisign", "C18_pgp_old_refuted", "C18_glue_matches_source", "C18_glue_nonvacuous"])
+    data = crypto.keys_stream(ctx)
+    nfail, n = 0, 0
+    kinds = collections.Counter()
+    for r in data["results"]:
+        if r["rc"] != 0:
+            nfail += 1
+            ctx.violation("key-sweep-crashed", "key sweep for %s exited with %s" % (r["job"], r["rc"]), dict(job=r["job"], stderr=r["err"]))
+        for x in r["out"]:
+            n += 1
+            kinds[x["kind"]] += 1
+            if not x["ok"]:
+                nfail += 1
+                if nfail <= 5:
+                    ctx.violation(x["kind"], "%s fails for format %s with password %r (%s)" % (x["kind"], x["format"], x["password"], x["detail"][:120]),
+                                  dict(format=x["format"], password=x["password"], detail=x["detail"], how="stfsdrv keys: utility.Keygen -> keys.Parse* -> Encrypt/Decrypt, Sign/Verify"))
+    ctx.oblige("key sweep: every generated pair parses and round-trips (strings and streams), parsing with any other password fails, independent pairs never decrypt/verify each other", nfail == 0, "%d failures" % nfail)
+    ctx.coverage.update(evaluations=n, distinct_nontrivial=len(kinds) * len(data["passwords"]), check_kinds=dict(kinds), passwords=[repr(p)[:30] for p in data["passwords"]],
+                        rule="formats {age, pgp} x {minisign, pgp}; passwords incl. empty, ASCII, multi-byte (thorough: long, blank, NUL-containing, random); two independently generated pairs per (format, password); wrong passwords incl. the empty one",
+                        samples=[x for r in data["results"] for x in r["out"][:2]][:6])
+
+
+REGISTRY = {"C18": check_C18, "C17": check_C17, "C16": check_C16, "C14": check_C14, "C07": check_C07, "C06": check_C06, "C10": check_C10, "C15": check_C15, "C01": check_C01, "C02": check_C02, "C04": check_C04, "C05": check_C05,
             "C12": check_C12, "C13": check_C13}
